@@ -21,8 +21,8 @@ pub fn property_c05() -> Property {
         assumptions: &["writes through raw pointers / references (ptr_guard, aligned_as_mut, get_atomic_ref used directly) are exempt by documentation and not generated"],
         subchecks: vec![
             SubCheck { name: "bare", builds: &[Build::Std, Build::Xen], kind: Kind::Random { quick: 30_000, thorough: 1_500_000, max_words: 200 }, run: s_bare },
-            SubCheck { name: "region", builds: &[Build::Std], kind: Kind::Random { quick: 10_000, thorough: 500_000, max_words: 200 }, run: s_region },
-            SubCheck { name: "guest", builds: &[Build::Std], kind: Kind::Random { quick: 10_000, thorough: 500_000, max_words: 200 }, run: s_guest },
+            SubCheck { name: "region", builds: &[Build::Std, Build::Xen], kind: Kind::Random { quick: 10_000, thorough: 500_000, max_words: 200 }, run: s_region },
+            SubCheck { name: "guest", builds: &[Build::Std, Build::Xen], kind: Kind::Random { quick: 10_000, thorough: 500_000, max_words: 200 }, run: s_guest },
         ],
     }
 }
@@ -34,8 +34,8 @@ pub fn property_c16() -> Property {
         assumptions: &["the written range of an operation is computed by the harness from the documented transfer semantics (checked independently by C03/C04)"],
         subchecks: vec![
             SubCheck { name: "bare", builds: &[Build::Std, Build::Xen], kind: Kind::Random { quick: 30_000, thorough: 1_500_000, max_words: 200 }, run: p_bare },
-            SubCheck { name: "region", builds: &[Build::Std], kind: Kind::Random { quick: 10_000, thorough: 500_000, max_words: 200 }, run: p_region },
-            SubCheck { name: "guest", builds: &[Build::Std], kind: Kind::Random { quick: 10_000, thorough: 500_000, max_words: 200 }, run: p_guest },
+            SubCheck { name: "region", builds: &[Build::Std, Build::Xen], kind: Kind::Random { quick: 10_000, thorough: 500_000, max_words: 200 }, run: p_region },
+            SubCheck { name: "guest", builds: &[Build::Std, Build::Xen], kind: Kind::Random { quick: 10_000, thorough: 500_000, max_words: 200 }, run: p_guest },
         ],
     }
 }
